@@ -10,6 +10,7 @@ POOL = [
     {"svc": 0x1111, "inst": 1, "major": 1, "minor": 0, "egs": [1], "opts": [["ep", 4, "10.0.0.1", 17, 30501]]},
     {"svc": 0x1111, "inst": 2, "major": 1, "minor": 7, "egs": []},
     {"svc": 0x2222, "inst": 1, "major": 2, "minor": 0, "egs": [1]},
+    {"svc": 0x1111, "inst": 1, "major": 2, "minor": 5, "egs": []},  # same service and instance id as the first, another version
 ]
 HELPER = {"svc": 0x5555, "inst": 3, "major": 1, "minor": 2, "opts": [["ep", 4, "10.0.0.1", 17, 30500]]}
 INF_TTL = 0xFFFFFF
@@ -65,7 +66,7 @@ def gen_plan(pid, seed, idx, profile):
     r = rng(seed, pid, idx)
     timings = draw_timings(r)
     n = r.randint(1, 3)
-    insts = [dict(POOL[i]) for i in r.sample(range(3), n)]
+    insts = [dict(POOL[i]) for i in r.sample(range(4), n)]
     if r.random() < 0.25 and n > 1:
         insts[-1]["timings"] = {"CYCLIC_OFFER_DELAY": 0 if timings["CYCLIC_OFFER_DELAY"] else 1}
     cfg = {"instances": insts, "timings": timings, "sock_flip": r.choice([0, 0.5, 1.0])}
@@ -120,7 +121,10 @@ def gen_plan(pid, seed, idx, profile):
             # every pending answer must still leave before the StopOffer
             ins = r.choice(insts)
             tt = t
-            for p in r.sample(range(3), r.randint(2, 3)):
+            peers = r.sample(range(3), r.randint(2, 3))
+            if r.random() < 0.4:
+                peers = [peers[0], peers[0]] + peers[1:]  # two requests of one requester pending at once
+            for p in peers:
                 ops.append({"k": "sd", "t": round(tt, 9), "p": p, "ch": r.choice("uuum"), "e": [["find", ins["svc"], r.choice([ins["inst"], 0xFFFF]), 0xFF, 0xFFFFFFFF, 3]]})
                 tt += r.choice([0.0, 0.0005, 0.002])
             ops.append({"k": "call", "t": round(tt + r.choice([0.0, 0.001, 0.004, 0.03]), 9), "f": r.choice(["ann_stop", "stop_announce", "stop"]), "a": [insts.index(ins)] if False else []})
